@@ -14,7 +14,10 @@ with the call's input plus the cell index, and with a `cls` that carries the att
 cell (so that a known finding can be matched by input class).  All clauses belong to C18:
 
     ensures-shape                                  result shape = cube shape (+ fact columns | K,K); (values, validity) pair well formed
-    ensures-missing-cells-exact                    reported missing  <=>  C04's rule (+ sd: < 2 valid rows; matrix entry rule)
+                                                   (zero dimensions: the single cell, however wrapped - DESIGN §9.1); gate of the per-cell clauses
+    ensures-companion-calls-well-formed            the second / third call of the real function made by the relational clauses returns a
+                                                   well-formed result of the same shape; gate of the format / rescaling clauses
+    ensures-missing-cells-exact                  reported missing  <=>  C04's rule (+ sd: < 2 valid rows; matrix entry rule)
     ensures-value-equals-percell-statistic         |value - textbook| <= 1e-9 * max(1, scale) on non-missing cells (min/max: exact)
     ensures-formats-same-missing-cells / -same-values / ensures-format-sentinel-in-missing-cells
                                                    NaN format and (sentinel, False) format of the same call agree
@@ -24,6 +27,15 @@ cell (so that a known finding can be matched by input class).  All clauses belon
     ensures-weighted-within-min-max-of-valid-values            law 3
     ensures-weighted-invariant-under-weight-rescaling          law 2 (second call of the real function with 3 * weights)
     fill/ensures-bin-*                             the same per bin on the regions after fill; stddev: its counters
+
+xcube.covariance carries two stacked contracts whose preconditions partition the calls: the plain one
+(no cell whose usable rows have weights summing to zero) and `xcubes.xcube.covariance[cell-with-zero-weight-mass]`
+(some cell has usable rows whose weights sum to exactly zero: that cell's covariance is 0/0 and not compared,
+every other cell is, and the call must not raise).
+
+Preconditions (DESIGN §9.1): weights None | (N,) array | (values, validity) pair - never a scalar; valid weights
+finite and >= 0; probability in [0, 1]; correlation unweighted; min / max on one-column facts; covariance /
+correlation on >= 2 columns; report format NaN (NaT) or (sentinel, False) - the plain replacement value is C04's.
 """
 import numpy as np
 
